@@ -307,10 +307,18 @@ func (g *ExprGen) leaf(p scopePath, depth int) string {
 		if depth > 0 && g.R.Chance(0.45) {
 			return "( " + g.quantifier(p, depth) + " )"
 		}
-		if p.Val.IsValid() && p.Val.Kind() == reflect.Slice && p.Val.Type().Elem().Kind() == reflect.Uint8 && g.R.Chance(0.6) {
-			// []byte values are matched as text
+		if p.Val.IsValid() && (p.Val.Kind() == reflect.Slice || p.Val.Kind() == reflect.Array) && p.Val.Type().Elem().Kind() == reflect.Uint8 && g.R.Chance(0.6) {
+			// []byte values (and fixed-size byte arrays) are matched as text
 			re := g.R.Pick(regexPool)
-			if b := p.Val.Bytes(); hit && len(b) >= 4 {
+			var b []byte
+			if p.Val.Kind() == reflect.Slice {
+				b = p.Val.Bytes()
+			} else {
+				for i := 0; i < p.Val.Len(); i++ {
+					b = append(b, byte(p.Val.Index(i).Uint()))
+				}
+			}
+			if hit && len(b) >= 4 {
 				// anchored on the current contents: an in-place edit of the buffer flips it
 				re = "^" + regexp.QuoteMeta(string(b[:2+g.R.Intn(3)]))
 			}
